@@ -102,11 +102,18 @@ def op_load(state: State, a: Dict[str, Any], env: simenv.SimEnv) -> Any:
         # got as far as having an object (same arguments, same method)
         key = json.dumps([mode, via, a.get("files"), a.get("subdir"), a.get("abs_files", True)], sort_keys=True, default=str)
         prev = state.misc.pop("last_trace_object", None)
+        fresh = True
         if a.get("retry_same_object") and prev is not None and prev[0] == key:
             t = prev[1]
+            fresh = False
         else:
             t = Trace(trace_files=files, trace_dir=trace_dir)
         state.misc["last_trace_object"] = (key, t)
+        # (only on a fresh object: on a loaded one parse_single_rank re-parses the rank with its raw timestamps and
+        # load_traces is then the documented no-op "already parsed and loaded" - that history proves nothing)
+        for r in (a.get("first_single") or []) if fresh else []:
+            if int(r) in t.trace_files:
+                t.parse_single_rank(int(r))
         if mode == "full":
             t.load_traces(include_last_profiler_step=inc, use_multiprocessing=bool(a.get("mp", True)),
                           use_memory_profiling=bool(a.get("memprof", True)))
